@@ -123,7 +123,7 @@ def R6(inp, N, n, obs=0):
     """acknowledgement handling: matchIndex only grows and only to idx-1 of a success reply; nextIndex is
     set on reset or on growth; lastResponseTime=now; only the sender's entries change; non-leaders ignore."""
     o, tr, now = _mk(inp, N)
-    p = so.sym_state(inp, o, now, n, term_hi=T_HI, observers=['r%d' % i for i in range(obs)])
+    p = so.sym_state(inp, o, now, n, term_hi=T_HI, observers=['r%d' % i for i in range(obs)], connected=[x for x in IDS[1:N]] + ['r%d' % i for i in range(obs)])
     cands = [x for x in p.others + p.observers if x.id in p.next or p.role != L]
     sender = cands[inp.choice('sender', len(cands))]
     idx = inp.int('idx', 0, 3 + n + 3)
@@ -155,7 +155,7 @@ def _majority(flags, N):
 
 
 @obligation('R7', props=('C04', 'C01', 'C20', 'C18', 'C05', 'C03'),
-            quick=[dict(N=2, n=2), dict(N=3, n=3), dict(N=4, n=2), dict(N=3, n=2, obs=1)],
+            quick=[dict(N=2, n=2), dict(N=3, n=3), dict(N=4, n=2), dict(N=5, n=2), dict(N=3, n=2, obs=1)],
             thorough=[dict(N=N, n=n) for N in (1, 2, 3, 4, 5) for n in (2, 3, 4)] + [dict(N=3, n=3, obs=2), dict(N=2, n=2, obs=3), dict(N=4, n=2, obs=1)],
             stubs=_STUBS, bounds='voters N<=5 (both parities), observers<=3, n<=4, terms 0..4, matchIndex/lastResponseTime arbitrary, fallback timeout in (appendEntriesPeriod, 30], clock unbounded')
 def R7(inp, N, n, obs=0):
@@ -165,7 +165,8 @@ def R7(inp, N, n, obs=0):
     o, tr, now = _mk(inp, N)
     fb = inp.real('fallback', 0.1, 30, lo_strict=True)
     o.conf.leaderFallbackTimeout = fb
-    p = so.sym_state(inp, o, now, n, role=L, term_hi=T_HI, observers=['r%d' % i for i in range(obs)])
+    allpeers = [x for x in IDS[1:N]] + ['r%d' % i for i in range(obs)]
+    p = so.sym_state(inp, o, now, n, role=L, term_hi=T_HI, observers=['r%d' % i for i in range(obs)], connected=allpeers)   # no sending in this tick: connectivity is irrelevant
     put(o, 'newAppendEntriesTime', now + 1)          # no heartbeat in this tick (sending is PG/A2's subject)
     _, exc = guard(o._onTick, 0.0)
     q = so.post_state(o)
